@@ -43,6 +43,7 @@ import (
 	"github.com/stretchr/testify/require"
 
 	itutiltypes "github.com/EscanBE/evermint/v12/integration_test_util/types"
+	evmtypes "github.com/EscanBE/evermint/v12/x/evm/types"
 	vauthtypes "github.com/EscanBE/evermint/v12/x/vauth/types"
 	vauthutils "github.com/EscanBE/evermint/v12/x/vauth/utils"
 
@@ -168,6 +169,8 @@ func (w *world) setup() {
 	w.pool = append(w.pool, w.byHex[hex.EncodeToString(ck.GetCosmosAddress())])
 	w.pool[len(w.pool)-1].tag = "key-with-code"
 	w.pool = append(w.pool, w.byHex[hex.EncodeToString(w.rich[9].GetCosmosAddress())])
+	// ... and two of the accounts that sign vesting transactions: once proven themselves they keep sending to unproven targets
+	w.pool = append(w.pool, w.byHex[hex.EncodeToString(w.rich[8].GetCosmosAddress())], w.byHex[hex.EncodeToString(w.rich[7].GetCosmosAddress())])
 	// addresses no key controls: the staking precompile, two module accounts
 	w.pool = append(w.pool, w.register(sdk.AccAddress(common.HexToAddress("0xCc02000000000000000000000000000000000002").Bytes()), nil, "contract"))
 	w.pool = append(w.pool, w.register(authtypes.NewModuleAddress(authtypes.FeeCollectorName), nil, "module"))
@@ -773,7 +776,15 @@ func TestDriverVauth(t *testing.T) {
 			return l
 		}
 		U, T := sorted(univ), sorted(tracked)
+		if r.Chance(4) {
+			// coins that reached the module account some other way (placed through the bank keeper) are nobody's cost and must stay
+			coins := sdk.NewCoins(sdk.NewInt64Coin(c.Denom(), int64(1+r.Intn(1000))))
+			require.NoError(t, c.App.BankKeeper.MintCoins(c.Ctx(), evmtypes.ModuleName, coins))
+			require.NoError(t, c.App.BankKeeper.SendCoinsFromModuleToModule(c.Ctx(), evmtypes.ModuleName, vauthtypes.ModuleName, coins))
+			side.Count("setup:module-account-funded")
+		}
 		pre := c.QueryCtx()
+		modBefore := c.Bal(pre, vauthMod, c.Denom())
 		storeBefore := w.readStore(pre)
 		supplyBefore := c.Supply(pre, c.Denom())
 		balBefore := map[string]*big.Int{}
@@ -1072,8 +1083,8 @@ func TestDriverVauth(t *testing.T) {
 		if wantSupply.Cmp(supplyAfter) != 0 {
 			hit("cost/burn-not-exact", fmt.Sprintf("supply %s -> %s with %s minted by x/mint and %d successful submission(s): expected %s", supplyBefore, supplyAfter, minted, nOK, wantSupply))
 		}
-		if b := c.Bal(post, vauthMod, c.Denom()); b.Sign() != 0 {
-			hit("cost/module-account-retains-coins", "the vauth module account holds "+b.String()+" after the block: the cost was not burnt")
+		if b := c.Bal(post, vauthMod, c.Denom()); b.Cmp(modBefore) != 0 {
+			hit("cost/module-account-balance-changed", "the vauth module account held "+modBefore.String()+" before and "+b.String()+" after the block: the cost was not burnt exactly")
 		}
 		// (4) vesting accounts only for addresses that already have a proof, never through MsgExec
 		for _, o := range ops {
